@@ -1,9 +1,9 @@
 SPECIFICATION GSpec
 CONSTANTS
-  Mode = "lc"
-  Objs = {1}
+  Mode = "all"
+  Objs = {1,2}
   Keys = {1,2}
-  D = 5
+  D = 4
   Outcomes = {"ok","err","panic"}
   Hooks = FALSE
 INVARIANTS PrintHist
